@@ -39,6 +39,11 @@ func (k *c18Key) admits(it *c18Item) bool {
 func c18Ref(sc *c18Scenario, it *c18Item, now time.Time, earliest bool) string {
 	k := sc.inDB[it.KeyID]
 	switch {
+	case it.Authority == "": // self-signed type: only "the signature verifies over these bytes"
+		if it.BadSig {
+			return "bad-signature"
+		}
+		return ""
 	case k == nil:
 		return "unknown-key"
 	case k.Owner != it.Authority:
